@@ -262,8 +262,15 @@ func (incr *incremental[Obj]) commitStatus() (numErrors int) {
 			// The limitation of this approach is that we cannot support the reconciler
 			// modifying the object during reconciliation as the following will forget
 			// the changes.
+			//
+			// The same applies to a retried object that still carries the error status
+			// from the failed attempt: a status-only change by another reconciler has
+			// changed the revision the retry was queued with. Without this the result of
+			// the retry would be dropped and the object never retried again.
 			currentStatus := incr.config.GetObjectStatus(current)
-			if currentStatus.Kind == StatusKindPending && currentStatus.ID == result.id {
+			isRetry := result.rev != result.origRev
+			if (currentStatus.Kind == StatusKindPending && currentStatus.ID == result.id) ||
+				(isRetry && currentStatus.Kind == StatusKindError) {
 				current = incr.config.CloneObject(current)
 				current = incr.config.SetObjectStatus(current, status)
 				_, _, err = incr.table.Insert(wtxn, current)
